@@ -44,6 +44,9 @@ inductive BN : TEnv → AST → TVal → Prop
   /-- ㅈ on two integers -/
   | ltInt {ρ n spf a1 a2 sp x y} : encodeNumber n = [7] → BN ρ a1 (.int x) → BN ρ a2 (.int y) →
       BN ρ (.call (.lit n spf) [a1, a2] sp) (.bool (decide (x < y)))
+  /-- ㄴㅁ on two integers, the divisor non-zero: the truncated remainder -/
+  | remInt {ρ n spf a1 a2 sp x y} : encodeNumber n = [1, 4] → BN ρ a1 (.int x) → BN ρ a2 (.int y) → y ≠ 0 →
+      BN ρ (.call (.lit n spf) [a1, a2] sp) (.int (Int.tmod x y))
   /-- ㅁㄹ builds a list of its argument expressions, none of them evaluated -/
   | mkList {ρ n spf args sp} : encodeNumber n = [4, 3] →
       BN ρ (.call (.lit n spf) args sp) (.list (args.map (fun a => (a, ρ))))
@@ -81,6 +84,7 @@ theorem BN.deterministic {ρ e v1 v2} (h1 : BN ρ e v1) (h2 : BN ρ e v2) : v1 =
     | addInt _ _ _ => simp [tagOf] at hf
     | mulInt _ _ _ => simp [tagOf] at hf
     | ltInt _ _ _ => simp [tagOf] at hf
+    | remInt _ _ _ _ => simp [tagOf] at hf
     | mkList _ => simp [tagOf] at hf
     | lenList _ _ => simp [tagOf] at hf
   | ctrue hn =>
@@ -103,6 +107,7 @@ theorem BN.deterministic {ρ e v1 v2} (h1 : BN ρ e v1) (h2 : BN ρ e v2) : v1 =
     | addInt _ _ _ => simp [tagOf] at hf
     | mulInt _ _ _ => simp [tagOf] at hf
     | ltInt _ _ _ => simp [tagOf] at hf
+    | remInt _ _ _ _ => simp [tagOf] at hf
     | mkList _ => simp [tagOf] at hf
   | eqInt hn _ _ ih1 ih2 =>
     cases h2 with
@@ -110,6 +115,7 @@ theorem BN.deterministic {ρ e v1 v2} (h1 : BN ρ e v1) (h2 : BN ρ e v2) : v1 =
     | addInt hn' _ _ => rw [hn] at hn'; cases hn'
     | mulInt hn' _ _ => rw [hn] at hn'; cases hn'
     | ltInt hn' _ _ => rw [hn] at hn'; cases hn'
+    | remInt hn' _ _ _ => rw [hn] at hn'; cases hn'
     | mkList hn' => rw [hn] at hn'; cases hn'
     | call hf _ _ => simp [tagOf] at hf
     | sel hf _ _ => simp [tagOf] at hf
@@ -119,6 +125,7 @@ theorem BN.deterministic {ρ e v1 v2} (h1 : BN ρ e v1) (h2 : BN ρ e v2) : v1 =
     | eqInt hn' _ _ => rw [hn] at hn'; cases hn'
     | mulInt hn' _ _ => rw [hn] at hn'; cases hn'
     | ltInt hn' _ _ => rw [hn] at hn'; cases hn'
+    | remInt hn' _ _ _ => rw [hn] at hn'; cases hn'
     | mkList hn' => rw [hn] at hn'; cases hn'
     | call hf _ _ => simp [tagOf] at hf
     | sel hf _ _ => simp [tagOf] at hf
@@ -128,6 +135,7 @@ theorem BN.deterministic {ρ e v1 v2} (h1 : BN ρ e v1) (h2 : BN ρ e v2) : v1 =
     | eqInt hn' _ _ => rw [hn] at hn'; cases hn'
     | addInt hn' _ _ => rw [hn] at hn'; cases hn'
     | ltInt hn' _ _ => rw [hn] at hn'; cases hn'
+    | remInt hn' _ _ _ => rw [hn] at hn'; cases hn'
     | mkList hn' => rw [hn] at hn'; cases hn'
     | call hf _ _ => simp [tagOf] at hf
     | sel hf _ _ => simp [tagOf] at hf
@@ -137,6 +145,17 @@ theorem BN.deterministic {ρ e v1 v2} (h1 : BN ρ e v1) (h2 : BN ρ e v2) : v1 =
     | eqInt hn' _ _ => rw [hn] at hn'; cases hn'
     | addInt hn' _ _ => rw [hn] at hn'; cases hn'
     | mulInt hn' _ _ => rw [hn] at hn'; cases hn'
+    | remInt hn' _ _ _ => rw [hn] at hn'; cases hn'
+    | mkList hn' => rw [hn] at hn'; cases hn'
+    | call hf _ _ => simp [tagOf] at hf
+    | sel hf _ _ => simp [tagOf] at hf
+  | remInt hn _ _ _ ih1 ih2 =>
+    cases h2 with
+    | remInt _ h1' h2' _ => have := ih1 h1'; cases this; have := ih2 h2'; cases this; rfl
+    | eqInt hn' _ _ => rw [hn] at hn'; cases hn'
+    | addInt hn' _ _ => rw [hn] at hn'; cases hn'
+    | mulInt hn' _ _ => rw [hn] at hn'; cases hn'
+    | ltInt hn' _ _ => rw [hn] at hn'; cases hn'
     | mkList hn' => rw [hn] at hn'; cases hn'
     | call hf _ _ => simp [tagOf] at hf
     | sel hf _ _ => simp [tagOf] at hf
@@ -149,6 +168,7 @@ theorem BN.deterministic {ρ e v1 v2} (h1 : BN ρ e v1) (h2 : BN ρ e v2) : v1 =
     | addInt hn' _ _ => rw [hn] at hn'; cases hn'
     | mulInt hn' _ _ => rw [hn] at hn'; cases hn'
     | ltInt hn' _ _ => rw [hn] at hn'; cases hn'
+    | remInt hn' _ _ _ => rw [hn] at hn'; cases hn'
     | lenList hn' _ => rw [hn] at hn'; cases hn'
     | call hf _ _ => simp [tagOf] at hf
     | sel hf _ _ => simp [tagOf] at hf
@@ -1275,6 +1295,40 @@ theorem adequacy {ρ e tv} (hbn : BN ρ e tv) : ∀ (G : Ghost) (s : Store) (w :
     have hd : Den G2 s2 t (.bool (decide (x < y))) := (Den.ext ex02 hex).2 (inv.den_of he hρ (BN.ltInt hn hb1 hb2))
     have st := sameStatic_resolve (.ok (.bool (decide (x < y)))) (s2.cells.size + 1) s2 t
     refine ⟨G2, _, .bool (decide (x < y)), max k1 k2 + 1, ?_, inv2.resolve _ t _ _ hd (.bool _), ex02.trans (st.ext _), .bool _⟩
+    refine Eval.frameVal ?_
+    rw [newFrame_cur_none hnone, he]
+    exact hcomp
+  | @remInt ρ n spf a1 a2 sp x y hn hb1 hb2 hy ih1 ih2 =>
+    intro G s w t inv hex he hρ hnone
+    let env := (s.getCell t).env
+    have hsc := inv.cellScoped t hex
+    have hρ' : ρ = trEnv G s env := hρ.symm.trans (inv.cellEnv t hex)
+    have inv0 := inv.alloc (.lit n spf) env hsc
+    have ex0 := ext_alloc (G := G) inv.wf (.lit n spf) env (trEnv G s env)
+    obtain ⟨Ga, inva, exa, hmap, hargs⟩ := allocArgs_spec env [a1, a2] _ _ inv0 (hsc.ext ex0)
+    have hsz : (alloc s (.lit n spf) env).cells.size = s.cells.size + 1 := by simp [alloc]
+    simp only [allocArgs, List.map_cons, List.map_nil, hsz, alloc, Heap.size_push, trArg, List.cons.injEq, Prod.mk.injEq, and_true] at hmap
+    obtain ⟨⟨hx1, hx2⟩, hy1, hy2⟩ := hmap
+    obtain ⟨_, _, hax1, hax2⟩ := hargs (.thunk (s.cells.size + 1) (tagOf a1)) (by simp [allocArgs, alloc])
+    obtain ⟨_, _, hay1, hay2⟩ := hargs (.thunk (s.cells.size + 1 + 1) (tagOf a2)) (by simp [allocArgs, alloc])
+    cases hax1; cases hay1
+    have hρa : trEnv (G.setCell s.cells.size (trEnv G s env)) (alloc s (.lit n spf) env) env = ρ := by
+      rw [trEnv_ext hsc ex0, ← hρ']
+    obtain ⟨G1, s1, v1, k1, f1, inv1, ex1, rv1⟩ := forces_any hb1 ih1 Ga _ w (s.cells.size + 1) inva hax2 hx1 (hx2.trans hρa)
+    cases rv1
+    have hay2' := (ex1.cells _ hay2)
+    obtain ⟨G2, s2, v2, k2, f2, inv2, ex2, rv2⟩ := forces_any hb2 ih2 G1 s1 w (s.cells.size + 1 + 1) inv1 hay2'.1
+      (by rw [hay2'.2.1]; exact hy1) (by rw [hay2'.2.2.2]; exact hy2.trans hρa)
+    cases rv2
+    have hbi : builtinOf n = some bRemainder := by simp [builtinOf, hn]
+    have hcomp : Eval s w (.comp (bodyOf (.call (.lit n spf) [a1, a2] sp) env)) (max k1 k2) (.ok (.arg (.strict (.int (Int.tmod x y))))) s2 w := by
+      refine rule_call_builtin s w _ n spf [a1, a2] sp env bRemainder (builtin_name hn (by decide)) hbi ?_
+      simp only [allocArgs, hsz, alloc, Heap.size_push]
+      exact eval_rem_ints f1 f2 hy _ (Nat.le_max_left _ _) (Nat.le_max_right _ _)
+    have ex02 := ((ex0.trans exa).trans ex1).trans ex2
+    have hd : Den G2 s2 t (.int (Int.tmod x y)) := (Den.ext ex02 hex).2 (inv.den_of he hρ (BN.remInt hn hb1 hb2 hy))
+    have st := sameStatic_resolve (.ok (.int (Int.tmod x y))) (s2.cells.size + 1) s2 t
+    refine ⟨G2, _, .int (Int.tmod x y), max k1 k2 + 1, ?_, inv2.resolve _ t _ _ hd (.int _), ex02.trans (st.ext _), .int _⟩
     refine Eval.frameVal ?_
     rw [newFrame_cur_none hnone, he]
     exact hcomp
